@@ -281,6 +281,27 @@ def gen(rng, tier):
                 if d:
                     MUT_KINDS[d[0]] = MUT_KINDS.get(d[0], 0) + 1
                     out.append(d[1])
+    out += notation_pairs(rng)
+    return out
+
+
+def notation_pairs(rng):
+    """the same regex in quoted and raw notation (and with different numbers of #): the JSON does not carry the
+       notation, so the documents and hashes must be equal; where the implementation's own `==` calls the two ASTs
+       equal, its std Hash must agree too (checked on the implementation side)"""
+    out = []
+    sch = lg.rich_scheme()
+    fstr = sch.field_index("str")
+    for pat in lg.REGEX_POOL:
+        forms = [("matches", pat)] + [("matches", pat, ("raw", n)) for n in (1, 2, 3)]
+        if b'"' not in pat:
+            forms.append(("matches", pat, ("raw", 0)))
+        for i in range(len(forms)):
+            for j in range(i + 1, len(forms)):
+                e1 = ("cmp", ("field", fstr), forms[i])
+                e2 = ("cmp", ("field", fstr), forms[j])
+                out.append(distinct_case(rng, sch, e1, e2))
+                out.append(distinct_case(rng, sch, ("not", e1), ("comb", "and", e2, ("cmp", ("field", sch.field_index("tt")), "istrue"))))
     return out
 
 
@@ -323,7 +344,7 @@ PROP = {
     "id": "C07",
     "prop_file": "theories/Props/C07.v",
     "proof_files": ["theories/Proofs/AstJsonProofs.v", "theories/Proofs/JsonPrintProofs.v", "theories/Proofs/AstJsonInj.v",
-                    "theories/Proofs/IpTextProofs.v", "theories/Proofs/LitsTyped.v", "theories/Proofs/LayoutProofs.v",
+                    "theories/Proofs/IpTextInj.v", "theories/Proofs/LitsTyped.v", "theories/Proofs/LayoutProofs.v",
                     "theories/Proofs/C07Proofs.v", "theories/Proofs/IpsProofs.v"],
     "gen": gen,
     "nontrivial": nontrivial,
